@@ -50,6 +50,14 @@ def rdRaw (bs : List Byte) (r : Rd) (n : Nat) : List Byte × Rd :=
   | (some b, _, r') => (b, r')
   | (none, _, r') => (List.replicate n 0, r')
 
+/-- consecutive raw fields ("m", "E2", "E4", "E8", "b" conversions one after the other): each is zeros on a short read -/
+def rdSeq (bs : List Byte) : List Nat → Rd → List (List Byte) × Rd
+  | [], r => ([], r)
+  | n :: ns, r =>
+    let x := rdRaw bs r n
+    let y := rdSeq bs ns x.2
+    (x.1 :: y.1, y.2)
+
 /-- `psf_ftell` -/
 def ftell (bs : List Byte) (r : Rd) : Nat := if r.failed then bs.length else r.endp
 
